@@ -979,6 +979,12 @@ impl Rt {
         use_item: &Use,
     ) -> Result<(), RegistrationError> {
         for import in &use_item.imports {
+            if import.is_empty() {
+                return Err(RegistrationError {
+                    message: "The path of an import cannot be empty".into(),
+                    location: use_item.location.clone(),
+                });
+            }
             let mut new_scope = scope;
             let path = &import[..import.len() - 1];
             let last = &import[import.len() - 1];
